@@ -207,6 +207,13 @@ structure St where
   /-- C24 ghost: addresses whose waiting-to-unstake entry was seen without a record (its node was paid out and
   deleted) and has neither left the set nor been renewed by an accepted begin-unstake request since -/
   stale : List Addr := []
+  /-- C25 ghost: end of the downtime jail period (block time of the jailing block + DowntimeJailDuration) of the
+  nodes jailed for downtime, recorded from the jail event itself (votes + counters), not read back from the
+  implementation's signing info; dropped when the node is unjailed or its record disappears -/
+  jailEnd : List (Addr × Int) := []
+  /-- … and those of them whose record was rewritten by an accepted edit-stake since (the edit deletes / renews the
+  signing info, `JailedUntil` included) -/
+  jailEdited : List Addr := []
   deriving Inhabited
 
 def init (prop : String) : St := { prop := prop }
@@ -342,6 +349,9 @@ structure Outcome where
   extraProp : String := ""
   surplus : Int := 0
   justified : List Addr := []  -- addresses of an accepted begin-unstake request (C24 ghost)
+  jailedNow : List (Addr × Int) := []  -- downtime jails of this line with the end of their period (C25 ghost)
+  unjailed : List Addr := []   -- address of an accepted unjail (C25 ghost)
+  edited : List Addr := []     -- address of an accepted stake message (C25 ghost)
 
 def joinFails (l : List Fail) : Option Fail := l.head?
 
@@ -352,7 +362,12 @@ def judge (σ : St) (kind : String) (h t : Int) (pre : State) (pp : Parsed) (o :
   let post := { post0 with tmSet := tm }
   let stale' := (((σ.stale.filter fun a => !o.justified.contains a) ++
       post.waiting.filter fun a => (aget post.vals a).isNone).eraseDups).filter fun a => post.waiting.contains a
-  let σ' := { σ with cur := some post, surplus := σ.surplus + o.surplus, stale := if kind = "genesis" then [] else stale' }
+  let je0 := o.jailedNow.foldl (fun acc p => aset acc p.1 p.2) σ.jailEnd
+  let jailEnd' := je0.filter fun p => !o.unjailed.contains p.1 && (((aget post.vals p.1).map (·.jailed)).getD false)
+  let staleN : List Addr := if kind = "genesis" then [] else stale'
+  let jailEndN : List (Addr × Int) := if kind = "genesis" then [] else jailEnd'
+  let jailEditedN : List Addr := (σ.jailEdited ++ o.edited).filter fun a => (aget jailEndN a).isSome
+  let σ' := { σ with cur := some post, surplus := σ.surplus + o.surplus, stale := staleN, jailEnd := jailEndN, jailEdited := jailEditedN }
   if !pp.bad.isEmpty then (σ', .bad s!"unparsed words {pp.bad.take 3}") else
   let pf : List Fail :=
     (if o.extraProp = σ.prop then o.extra else []) ++
@@ -419,8 +434,18 @@ def step (σ : St) (pre post : List String) : St × Verdict :=
             fails (((aget pp.st.signInfo v.addr).map (fun x => x.missed == 0 && x.jailedUntil == t + p.downtimeJail)).getD true) "jail-period-not-set" (rB v.addr)
           else []
         | _, _ => []
+      -- C25 ghost: the downtime jails of this block (same rule, from the votes and the previous counters)
+      let jn : List (Addr × Int) := vs.filterMap fun v =>
+        match aget cur.vals v.addr, aget cur.signInfo v.addr with
+        | some r, some si =>
+          let win := h % p.window == 0
+          let si := if win then si.reset else si
+          let prevBit := !win && missedAt cur v.addr si.index
+          let missed := if !prevBit && !v.signed then si.missed + 1 else if prevBit && v.signed then si.missed - 1 else si.missed
+          if missed > p.window - p.minSigned && r.status ≠ .unstaked then some (v.addr, t + p.downtimeJail) else none
+        | _, _ => none
       -- (the stake-weight parameters are read through feature-gated defaults: their dumped value is an input)
-      judge σ "begin" h t cur pp { model := { m with params := pp.st.params }, withBal := false, extra := extra, extraProp := "C25" } []
+      judge σ "begin" h t cur pp { model := { m with params := pp.st.params }, withBal := false, extra := extra, extraProp := "C25", jailedNow := jn } []
     | _, _, _, _ => (σ, .bad "begin args")
   | ["end", h, t] =>
     match pInt h, pInt t, post with
@@ -505,7 +530,8 @@ def step (σ : St) (pre post : List String) : St × Verdict :=
             let extra : List Fail := match curRec, aget pp.st.vals a with
               | some c, some n => if code = "0/" ∧ c.status = .staked then (Spec.editOk c n sg (decide (a ∈ cur.waiting))).map fun s => (s, s!"{rB a} signer={rB sg}") else []
               | _, _ => []
-            judge σ "stake" h 0 cur pp { model := m, modelNote := note, extra := extra, extraProp := "C23" } []
+            let ed : List Addr := if code = "0/" then [a] else []
+            judge σ "stake" h 0 cur pp { model := m, modelNote := note, extra := extra, extraProp := "C23", edited := ed } []
         | _, _, _, _, _, _, _, _, _, _ => (σ, .bad "stake args")
       | "unstake", [h, a, sg, fee] =>
         match pInt h, pB a, pB sg, pInt fee with
@@ -535,7 +561,13 @@ def step (σ : St) (pre post : List String) : St × Verdict :=
           let suff : List Fail :=
             fails (!(r == .ok && code == "104/pos")) "unjail-depends-on-wall-clock"
               s!"{rB a} signer={rB sg} block time {t} ≥ jailedUntil {((aget cur.signInfo a).map (·.jailedUntil))}, all conditions met, answered {code}"
-          judge σ "unjail" h t cur pp { model := m, modelNote := if resCode r = code then "" else s!"code model={resCode r} impl={code}", extra := requires ++ suff, extraProp := "C25" } []
+          -- … and not before the end of the downtime jail period recorded when the node was jailed (ghost state)
+          let early : List Fail := if code ≠ "0/" then [] else match aget σ.jailEnd a with
+            | some j => fails (decide (t ≥ j)) (if σ.jailEdited.contains a then "unjailed-early-after-edit-stake" else "unjailed-before-jail-duration") s!"{rB a} block time {t} < end of the jail period {j} (signing info says {((aget cur.signInfo a).map (·.jailedUntil))})"
+            | none => []
+          let note := if resCode r = code then "" else s!"code model={resCode r} impl={code}"
+          let unj : List Addr := if code = "0/" then [a] else []
+          judge σ "unjail" h t cur pp { model := m, modelNote := note, extra := early ++ requires ++ suff, extraProp := "C25", unjailed := unj } []
         | _, _, _, _, _ => (σ, .bad "unjail args")
       | "param", [h, _, _, sg, fee] =>
         match pInt h, pB sg, pInt fee with
